@@ -276,6 +276,16 @@ func (ex *Exec) loadPath(v Value, path []PathEl) Value {
 func (ex *Exec) cell(a *ArrayV, k int) Value {
 	v := a.e[k]
 	for _, ev := range a.log {
+		if ev.idx.IsConst() {
+			if ev.idx.val != uint64(k) {
+				continue
+			}
+			v = ex.storePath(v, ev.rest, ev.val, ev.g)
+			continue
+		}
+		if b, ok := ex.tb.boundsOf(ev.idx); ok && (uint64(k) < b.lo || uint64(k) > b.hi) {
+			continue
+		}
 		c := ex.tb.And(ev.g, ex.idxEq(ev.idx, k))
 		if c.IsFalse() {
 			continue
@@ -500,13 +510,43 @@ func (ex *Exec) umaxLen(st *State, n *Term, site string) int {
 		return int(v)
 	}
 	b, ok := ex.tb.boundsOf(n)
+	lo, hi := 0, ex.Kalloc
 	if ok && b.hi <= uint64(ex.Kalloc) {
-		return int(b.hi)
+		lo, hi = int(b.lo), int(b.hi)
+	} else {
+		// ask the solver whether n can exceed Kalloc
+		bad := ex.tb.Slt(ex.i64(ex.Kalloc), n)
+		ex.vc(st, "alloc", site+": length exceeds allocation bound", bad)
+		if st.dead {
+			return 0
+		}
 	}
-	// ask the solver whether n can exceed Kalloc
-	bad := ex.tb.Slt(ex.i64(ex.Kalloc), n)
-	ex.vc(st, "alloc", site+": length exceeds allocation bound", bad)
-	return ex.Kalloc
+	if hi > 8 && ex.feasBranches {
+		return ex.tightMax(st, n, lo, hi)
+	}
+	return hi
+}
+
+// tightMax refines a syntactic upper bound of a length with the solver: the
+// smallest m such that n > m is infeasible on the current path (binary search;
+// an undecided query keeps the larger bound, so the result is always sound).
+func (ex *Exec) tightMax(st *State, n *Term, lo, hi int) int {
+	pc := ex.pcTerm(st)
+	key := [2]int{pc.id, n.id}
+	if v, ok := ex.tightCache[key]; ok {
+		return v
+	}
+	l, h := lo, hi // invariant: n <= h always holds
+	for l < h {
+		m := (l + h) / 2
+		if ex.solver.CheckQuick(ex.feasMs, pc, ex.tb.Slt(ex.i64(m), n)) == "unsat" {
+			h = m
+		} else {
+			l = m + 1
+		}
+	}
+	ex.tightCache[key] = h
+	return h
 }
 
 // newArrayObj allocates a backing array of cnt elements.
